@@ -107,6 +107,11 @@ class Flow:
         return defined
 
 
+def _excluded(name, exclude):
+    """user variables keep their name, possibly with a uniquifying decimal suffix"""
+    return name in exclude or name.rstrip("0123456789") in exclude
+
+
 def analyse_text(vhdl: str, exclude=()):
     """-> list of dicts {entity, process, variable, line, why}; and the number of intermediates examined"""
     units, _ = parse(vhdl)
@@ -122,7 +127,7 @@ def analyse_text(vhdl: str, exclude=()):
                 continue
             n_procs += 1
             temps = {d.name for d in st.decls if d.kind == "object" and d.cls == "variable" and d.init is None
-                     and d.name not in exclude}
+                     and not _excluded(d.name, exclude)}
             n_temps += len(temps)
             fl = Flow(temps)
             fl.block(st.body, frozenset())
@@ -165,7 +170,7 @@ def poison(sim, exclude=(), mode=0):
         for pinfo in ai.procs:
             if pinfo.kind != "process" or pinfo.body is None:
                 continue
-            idxs = [(o.idx, o.ty) for o in pinfo.var_objs if o.init is None and o.name not in exclude and o.cls == "variable"]
+            idxs = [(o.idx, o.ty) for o in pinfo.var_objs if o.init is None and not _excluded(o.name, exclude) and o.cls == "variable"]
             if not idxs:
                 continue
             for pr in sim.procs:
